@@ -9,17 +9,18 @@ LEVEL = "proof"
 TECHNIQUE = ("Coq theorems: layout length / palindrome / doubled centre and the update-history invariant for every reduced-phase list and "
              "history; parity of the Wx response U(-a) = (-1)^n Z U(a) Z over any ring; certificate soundness for the Jacobian values "
              "(coefficient-wise against the X part of the exact element); soundness of forward-mode differentiation of the model by "
-             "a logical relation (dual intervals enclose value and derivative of every coefficient of the perturbed element). The "
+             "a logical relation (dual intervals enclose value and derivative of every coefficient of the perturbed element) and the "
+             "end-to-end column certificate (C12_jacobian_column_certificate: row j of column k is within tol of the derivative at 0 "
+             "of the T_{2j+parity} coefficient of Im <0|U|0> along red_k, that coefficient being read from the exact real element of "
+             "the perturbed phases at every parameter value). The "
              "executable model (layout, complex-interval response, dual-number Jacobian) is compared with SymmetricQSPProtocol on "
              "generated reduced phases, update histories with interleaved use, and sample points")
-LEVEL_TEXT = ("Props/C12.v: 9 theorems universally quantified over reduced phases, histories, signal values. Per run: full_phases after "
+LEVEL_TEXT = ("Props/C12.v: 11 theorems universally quantified over reduced phases, histories, signal values. Per run: full_phases after "
               "every update = model layout = freshly built protocol (exact); gen_unitary / gen_response_re/im against the verified "
               "complex-interval evaluation of the defining Wx product of the model's layout; gen_jacobian f against check_jac_f and df "
               "column by column against the dual-interval enclosure.")
 LEVEL_NOTE = ("Trusted: Coq kernel + vm_compute, extraction, driver.ml, harness, numpy as executor. Axioms: stdlib real-number axioms + "
-              "Classical_Prop.classic for theorems over R/C (layout and parity theorems are axiom-free). The post-processing of the "
-              "dual run (sum of the +-m coefficients, halving at m = 0) is interval arithmetic with proved operations but has no "
-              "end-to-end theorem of its own.")
+              "Classical_Prop.classic for theorems over R/C (layout and parity theorems are axiom-free).")
 RULE = ("reduced-phase vectors of length 1..60 (quick: 1..12, 20, 33, 60), both parities, entries generic / multiples of pi/8 / tiny / "
         "large; update histories of length 0..20 with the object used (response + Jacobian) between updates in half of the cases; "
         "sample points incl. -1, 0, 1; distinct by JSON; non-trivial = at least 2 reduced phases")
